@@ -39,6 +39,20 @@ Fixpoint prune_rec (fuel : nat) (t : table) (w : wmap) (size : Q) (mask : option
 Definition prune_twigs (rounds : option nat) (t : table) (w : wmap) (size : Q) (mask : option (list Z)) : table :=
   match rounds with Some k => prune_rec (S k) t w size mask | None => prune_rec (S (length t)) t w size mask end.
 
+(* does any pruning round meet a terminal branch that is only PARTLY inside the mask?  On such inputs the docstring ("only nodes in
+   the mask are considered"), the compiled back end (cuts the branch at its first unmasked node) and the pure-Python path (decides by
+   the leaf alone) disagree; the property text sides with whole branches.  Used to key the known finding exactly. *)
+Definition partly_masked (m : list Z) (tw : list Z) : bool :=
+  existsb (fun i => memZ i m) tw && negb (forallb (fun i => memZ i m) tw).
+Fixpoint partial_met (fuel : nat) (t : table) (w : wmap) (size : Q) (mask : option (list Z)) : bool :=
+  match fuel, mask with
+  | S f, Some m => existsb (partly_masked m) (twigs t)
+                   || match removed_once t w size mask with [] => false | _ => partial_met f (prune_once t w size mask) w size mask end
+  | _, _ => false
+  end.
+Definition partial_mask_met (rounds : option nat) (t : table) (w : wmap) (size : Q) (mask : option (list Z)) : bool :=
+  match rounds with Some k => partial_met (S k) t w size mask | None => partial_met (S (length t)) t w size mask end.
+
 (* ---- exact mode: height of a node = largest distance to a tip below it ---- *)
 Definition children (t : table) (n : Z) : list Z := map rid (filter (fun r => (0 <=? rpar r) && (rpar r =? n)) t).
 Definition qmax (a b : Q) : Q := if Qle_bool a b then b else a.
